@@ -43,6 +43,10 @@ pub struct Case {
     /// construct through `Default::default()` (only on cells holding the law's default parameters)
     #[serde(default)]
     pub default_ctor: bool,
+    /// non-empty: another object of the same law with these parameters is constructed and sampled a
+    /// few times on the thread just before the visit (earlier activity that must not leak)
+    #[serde(default)]
+    pub pred: Vec<Fb>,
 }
 
 pub const DRAW_BUDGET: u64 = 100_000;
@@ -78,7 +82,7 @@ pub fn cells() -> Vec<(&'static str, Vec<f64>)> {
             c.push(("Binomial", vec![n, p]));
         }
     }
-    for (n, p) in [(100., 0.3), (100., 0.31), (59., 0.5), (61., 0.5), (100., 0.97), (40., 0.95), (400., 0.995), (2000., 0.999), (2000., 0.02), (300., 0.9), (64., 0.5), (128., 0.5), (2048., 0.5), (4096., 0.5), (4096., 0.25)] {
+    for (n, p) in [(100., 0.3), (100., 0.31), (59., 0.5), (61., 0.5), (100., 0.97), (40., 0.95), (400., 0.995), (2000., 0.999), (2000., 0.02), (300., 0.9), (64., 0.5), (128., 0.5), (2048., 0.5), (4096., 0.5), (4096., 0.25), (40., 0.25), (40., 0.75), (200., 0.625)] {
         c.push(("Binomial", vec![n, p]));
     }
     for p in [[0., 1.], [-2., 6.], [1e3, 1e3 + 1e-3], [5., 5.], [-1e3, 1e3]] {
@@ -109,6 +113,11 @@ pub fn cells() -> Vec<(&'static str, Vec<f64>)> {
     }
     for d in [16., 33.] {
         c.push(("MVN", vec![d, 1.]));
+    }
+    // covariances far below / above unit scale (standard deviations ~1e-9, 1e-12, 1e6): any absolute
+    // threshold on the entries (diagonal test, jitter, "is zero" shortcut) shows here
+    for (d, s) in [(2., 1e-18), (3., 1e-18), (5., 1e-18), (2., 1e-24), (4., 1e-24), (3., 1e12)] {
+        c.push(("MVN", vec![d, s]));
     }
     c
 }
@@ -430,7 +439,7 @@ impl Prop for C03 {
             let mut script = vec![];
             let nf = 1 + r.below(4);
             for _ in 0..nf {
-                let kind = *r.pick(&["rng_zero", "rng_max", "rng_tiny", "rng_half", "rng_tail", "rng_streak", "rng_pair"]);
+                let kind = *r.pick(&["rng_zero", "rng_max", "rng_tiny", "rng_half", "rng_tail", "rng_streak", "rng_pair", "rng_zig_edge"]);
                 let at = if r.chance(0.3) { r.below(8) } else { r.below(2 * n as u64) };
                 if kind == "rng_pair" {
                     // two consecutive extreme outputs (e.g. a rejected draw followed by the largest one)
@@ -480,7 +489,21 @@ impl Prop for C03 {
         if default_ctor {
             via.clear();
         }
-        Case { law: law.to_string(), params: fbs(&params), seeding, api, n, script, aux: Hx(r.next()), via, default_ctor }
+        let aux = Hx(r.next());
+        // every third visit is preceded by a sampled object of the same law: for Binomial the
+        // complementary success probability (same n), else another cell of the law
+        let mut pred = vec![];
+        if *law != "MVN" && visit % 3 == 1 {
+            if *law == "Binomial" && params[1] > 0.0 && params[1] < 1.0 {
+                pred = fbs(&[params[0], 1.0 - params[1]]);
+            } else {
+                let others: Vec<&Vec<f64>> = cs.iter().filter(|(l, p)| l == law && p != base).map(|(_, p)| p).collect();
+                if !others.is_empty() {
+                    pred = fbs(others[r.below(others.len() as u64) as usize]);
+                }
+            }
+        }
+        Case { law: law.to_string(), params: fbs(&params), seeding, api, n, script, aux, via, default_ctor, pred }
     }
 
     fn exec(case: &Case, st: &mut Stats) -> Option<Viol> {
@@ -564,6 +587,11 @@ impl Prop for C03 {
             c.via.clear();
             out.push(c);
         }
+        if !case.pred.is_empty() {
+            let mut c = case.clone();
+            c.pred.clear();
+            out.push(c);
+        }
         if case.default_ctor {
             let mut c = case.clone();
             c.default_ctor = false;
@@ -618,7 +646,7 @@ impl Prop for C03 {
                 v.push(k);
             }
         }
-        for k in ["api.sample_loop", "api.sample_n", "api.sample_matrix", "seeding.seed_clock", "seeding.seed_small", "seeding.seed_set", "config.fault_free", "config.fault_injecting", "config.reached_by_update", "config.off_grid", "fault.rng_zero", "fault.rng_max", "fault.rng_tiny", "fault.rng_half", "fault.rng_tail", "fault.rng_streak", "fault.rng_pair", "config.default_ctor", "config.mvn_structured", "check.dkw", "check.mvn_projection", "check.serial_independence", "dpc.Normal.1", "dpc.Normal.2", "dpc.Normal.3+", "dpc.Poisson.4+", "dpc.Binomial.4+", "dpc.Gamma.4+"] {
+        for k in ["api.sample_loop", "api.sample_n", "api.sample_matrix", "seeding.seed_clock", "seeding.seed_small", "seeding.seed_set", "config.fault_free", "config.fault_injecting", "config.reached_by_update", "config.off_grid", "fault.rng_zero", "fault.rng_max", "fault.rng_tiny", "fault.rng_half", "fault.rng_tail", "fault.rng_streak", "fault.rng_pair", "fault.rng_zig_edge", "config.default_ctor", "config.preceded_by_other_object", "config.mvn_structured", "check.dkw", "check.mvn_projection", "check.serial_independence", "dpc.Normal.1", "dpc.Normal.2", "dpc.Normal.3+", "dpc.Poisson.4+", "dpc.Binomial.4+", "dpc.Gamma.4+"] {
             v.push(k.to_string());
         }
         v
@@ -647,6 +675,19 @@ fn exec_1d(case: &Case, law: &str, p: &[f64], reg: &str, st: &mut Stats, h: &mut
         return None;
     }
     let via = unfb(&case.via);
+    let pred = unfb(&case.pred);
+    if pred.len() == p.len() && super::c18::valid(law, &pred) {
+        st.inc("config.preceded_by_other_object");
+        if let Ok(o) = catch(|| Obj::new(law, &pred)) {
+            for _ in 0..5 {
+                alea::sim::set_budget(DRAW_BUDGET);
+                if catch(|| o.sample()).is_err() {
+                    break;
+                }
+            }
+            alea::sim::clear_budget();
+        }
+    }
     let obj = if case.default_ctor && slice_bits_eq(p, &super::c18::default_params_pub(law)).is_none() {
         st.inc("config.default_ctor");
         match catch(|| Obj::default_of(law)) {
@@ -659,6 +700,13 @@ fn exec_1d(case: &Case, law: &str, p: &[f64], reg: &str, st: &mut Stats, h: &mut
             Ok(o) => o,
             Err(m) => return mk("constructor", "valid_rejected", format!("{}::new({:?}) panicked: {}", law, via, m)),
         };
+        for _ in 0..3 {
+            alea::sim::set_budget(DRAW_BUDGET);
+            if catch(|| o.sample()).is_err() {
+                break;
+            }
+        }
+        alea::sim::clear_budget();
         if let Err(m) = catch(|| o.update(p)) {
             return mk("constructor", "valid_rejected", format!("{}::new({:?}) then update({:?}) panicked: {}", law, via, p, m));
         }
